@@ -658,7 +658,11 @@ class Glob(Generic[AnyStr]):
                             # Scanning a file descriptor always yields `str` names
                             name = os.fsencode(f.name) if isinstance(self.root_dir, bytes) and isinstance(f.name, str) else f.name
                             hidden = self._is_hidden(name)  # type: ignore[arg-type]
-                            is_dir = f.is_dir()
+                            try:
+                                is_dir = f.is_dir()
+                            except OSError:
+                                # A link that cannot be resolved (a loop) is not a directory, but the entry exists
+                                is_dir = False
                             if is_dir:
                                 is_link = f.is_symlink()
                             else:
